@@ -22,10 +22,11 @@ ASSUMPTIONS = [
 ]
 
 NAMES = ['tgt', 'tgt*', 'foo', 'section*', 'textbf*', 'cup*', 'labelx', 'Section', 'defs', 'inn', 'noindent*', 'leftx']
-ATTACH = ['', ' ', '  ', '\t', '\n', ' \n', '\n ', ' \t\n\t ']
+ATTACH = ['', ' ', '  ', '\t', '\n', ' \n', '\n ', ' \t\n\t ', ' ' * 33, '\n' + ' ' * 40, '\t' * 35 + '\n']
 DETACH = ['\n\n', ' \n\n', '\n \n', '\n\n ', ' \n\t\n ', '.', ';', '%c\n', '\\\\', '\\%', '~', '\n\n\n',
           '@', '!', ':', ',', '+', '-', '=', '/', '|', '<', '>', '(', ')', '&', '#', '^', '_', '"', "'", '?', '1']
-BRACE_BODIES = ['a', '', ']', '[', '][', '(', 'a]b', '\\y{z}', '\\y[z]', '{]}', ' ', '$x$', 'x\n\ny', '[a]', '\\y{[}', 'a b']
+BRACE_BODIES = ['a', '', ']', '[', '][', '(', 'a]b', '\\y{z}', '\\y[z]', '{]}', ' ', '$x$', 'x\n\ny', '[a]', '\\y{[}', 'a b',
+                '\\bf Title', '\\it x]y', '\\em a', '\\large b']
 BRACKET_BODIES = ['a', '', '{]}', '(', '\\y{]}', '{[}', '$]$', '[', 'k=v', ' ', '\\y[z]', 'a}b']
 TRAILS = ['', ' tail', '.', '\n\ntail', ';x', ' ']
 
@@ -166,7 +167,7 @@ def shard_exhaustive(ctx, shard):
                         continue
                     groups = [('[', 'o%d' % k) for k in range(nb)] + [('{', 'r%d' % k) for k in range(nB)]
                     seps = [sep] * len(groups)
-                    for trail in (' \\z', ' t'):
+                    for trail in (' \\z', ' t', '\n\n\\z', '\n\n{x}'):
                         total += 1
                         try:
                             case = check_case('tgt', groups, seps, trail, cx, 'long-run')
